@@ -212,7 +212,8 @@ def e2e_cases(pid, tier, rng):
         Bfocus = rng.choice([64, 65, 100, 128, 256, 1000, 4096])
         lay = textgen.e2e_layout(rng, Bfocus, nmsgs=rng.choice([1, 2, 3, 5, 9, 20]), final_nl=rng.random() < 0.7,
                                  long_lines=(fi % 3 == 0), first_undated=rng.choice([0, 0, 0, 1, 2]),
-                                 crlf=(fi % 4 == 1), safe_head=(fi % 5 != 4))
+                                 crlf=(fi % 4 == 1), safe_head=(fi % 5 != 4),
+                                 notation=textgen.NOTATIONS[(fi // 2) % len(textgen.NOTATIONS)])
         if lay.size <= 5:
             continue
         bss = [Bfocus, Bfocus + 1, 64, 65536]
@@ -259,7 +260,7 @@ def e2e_cases(pid, tier, rng):
     # boundary family: the first message(s) end exactly on a block end, a multi-block line starts the next block
     for B in ([64, 100, 128] if tier == "quick" else [64, 65, 100, 128, 200, 256, 1000, 4096, 8096, 9000]):
         for first in ((1, 2) if B < 8096 else (2, 3)):
-            lay = textgen.boundary_layout(rng, B, first_lines=first)
+            lay = textgen.boundary_layout(rng, B, first_lines=first, notation=textgen.NOTATIONS[(B + first) % len(textgen.NOTATIONS)])
             for Bx in sorted({B, B + 1, max(64, B - 1), 2 * B, 65536}):
                 name = "b%d_%d.log" % (B, first)
                 case = Case({name: lay.data}, ["--color", "never", "--blocksz", str(Bx), name], lay.printed(),
@@ -274,7 +275,7 @@ def blockzero_verdicts(sc, pairs):
     for lay, B in pairs:
         insts.append({"B": B, "beg": list(lay.beg), "end": [lay.line_end(i) for i in range(len(lay.lines))],
                       "dated": list(lay.dated), "size": lay.size,
-                      "allnul": all(b == 0 for b in lay.data[:min(128, min(B, lay.size))]), "tslen": 19})
+                      "allnul": all(b == 0 for b in lay.data[:min(128, min(B, lay.size))]), "tslen": lay.tslen})
     d = os.path.join(sc, "bz")
     os.makedirs(d, exist_ok=True)
     ipath = os.path.join(d, "instances.json")
